@@ -20,6 +20,7 @@ Core Lean only.
 -/
 import WuffsVerif.Model.WSem
 import WuffsVerif.Model.CStmt
+import WuffsVerif.Model.CCoro
 
 namespace WuffsVerif.CStmt
 open WuffsVerif.WSem
@@ -35,6 +36,36 @@ def isWhileTrue (c : Node) : Bool := c.id0 == "-" && c.id2 == "true"
 /-- the condition has ConstValue 1 (`if true`, `if 1 < 2`, …) -/
 def isConstTrue (c : Node) : Bool := c.cv == some 1
 
+/-- Which C template an assignment / expression statement gets
+(Model/CCoro.lean `Kind`): `plain` unless its right-hand side is a coroutine
+call (`f?(…)`, effect bit 2) — then by receiver type and method name as in
+builtin.go writeBuiltinQuestionCall, else a call of a coroutine of the struct. -/
+def actKind (n : Node) : CCoro.Kind :=
+  match n.rhs with
+  | none => .plain
+  | some rhs =>
+    if rhs.cv.isSome || rhs.id0 != "call" || rhs.flags &&& ast_EffectCoroutine == 0 then .plain
+    else
+      match rhs.lhs with
+      | none => .plain
+      | some m =>
+        let recvTy := match m.lhs with
+          | some l => l.ty
+          | none => ""
+        let isIO := fun (t : String) => t.startsWith "T:base.io_reader" || t.startsWith "T:base.io_writer"
+        if recvTy.startsWith "T:base.io_reader" then
+          match readSpec m.id2 with
+          | some (nb, be) => if nb == 1 then .read8 else .read nb be
+          | none =>
+            -- skip / skip_u32: `x.ConstValue() == 1` takes the one-byte form
+            match rhs.l0 with
+            | [a] => if (a.rhs.bind (·.cv)) == some 1 then .skip1 else .skip
+            | _ => .skip
+        else if recvTy.startsWith "T:base.io_writer" then .write
+        else .call ((rhs.l0.filter (fun a => match a.rhs with
+          | some v => isIO v.ty
+          | none => false)).length)
+
 mutual
 /-- `loops`: enclosing loops, innermost first, as (label, identity); `ctr`: next identity.
 `outerIf = false` for an else-if node (writeStatementIf only looks for a
@@ -46,7 +77,7 @@ def convS (fuel : Nat) (loops : List (String × Nat)) (ctr : Nat) (outerIf : Boo
   | fuel + 1 =>
     let k := n.kind
     if k == "KVar" || k == "KAssert" then .ok ([], ctr)
-    else if k == "KAssign" then .ok ([.act 0], ctr)
+    else if k == "KAssign" then .ok ([.act (actKind n).code], ctr)
     else if k == "KRet" then
       if n.id0 == "return" then .ok ([.ret 0], ctr) else .error "unsupported:yield"
     else if k == "KJump" then
@@ -128,15 +159,41 @@ def canonLabels (toks : List String) : List String :=
     | _ => (t :: acc.1, acc.2)
   (toks.foldl step ([], [])).1.reverse
 
+mutual
+/-- `showS` of Model/CStmt.lean with the text of an atomic statement supplied by `act` -/
+def showSX (act : Nat → List String) : CStmt → List String
+  | .act a => act a
+  | .ite _ elif t e => ["I{"] ++ showLX act t ++ showElseX act elif e
+  | .block b => showLX act b
+  | .while _ body => ["W{"] ++ showLX act body ++ ["}"]
+  | .doWhile0 body => ["D{"] ++ showLX act body ++ ["}"]
+  | .brk => ["B"]
+  | .cont => ["C"]
+  | .goto l => [s!"G:{l.id}:{if l.brk then "b" else "c"}"]
+  | .label l => [s!"L:{l.id}:{if l.brk then "b" else "c"}"]
+  | .ret _ => ["R"]
+def showLX (act : Nat → List String) : List CStmt → List String
+  | [] => []
+  | s :: r => showSX act s ++ showLX act r
+def showElseX (act : Nat → List String) : Bool → List CStmt → List String
+  | _, [] => ["}"]
+  | true, [.ite _ elif t e] => ["}EI{"] ++ showLX act t ++ showElseX act elif e
+  | _, s :: r => ["}E{"] ++ showSX act s ++ showLX act r ++ ["}"]
+end
+
 /-- The skeleton of the C function body that cgen writes for a method with
 statements `body`; a method without a return type gets the epilogue
 `return wuffs_base__make_empty_struct();` (func.go writeFuncImplEpilogue).
+A coroutine (`coro`): every suspending statement is written as its template
+(Model/CCoro.lean), and the text ends where `goto ok;` begins the epilogue.
 `!wf` in front: the body is outside the hypotheses of `stmt_lowering_correct`. -/
-def skeletonOf (body : List Node) (hasOut : Bool) : String :=
+def skeletonOf (body : List Node) (hasOut : Bool) (coro : Bool := false) : String :=
   match convL 100000 [] 0 body with
   | .error e => e
   | .ok (ss, _) =>
-    let toks := canonLabels (showL (lowerL none ss)) ++ (if hasOut then [] else ["R"])
+    let toks :=
+      if coro then canonLabels (showLX CCoro.actTokens (lowerL none ss)) ++ ["END"]
+      else canonLabels (showL (lowerL none ss)) ++ (if hasOut then [] else ["R"])
     let toks := if wfL [] ss then toks else "!wf" :: toks
     if toks.isEmpty then "-" else " ".intercalate toks
 
